@@ -526,8 +526,9 @@ def run(ck: Check):
                       "those bytes are what apkInspector reads out of the archive, and that lxml / CPython's codecs behave like their models, is "
                       "covered by the correspondence and the oracle only")
     ck.notes.append("theorem domain: AppManifest.WF (non-empty names / values; MAIN and LAUNCHER under one component name sit in one filter), "
-                    "AppManifest.fits (uint32 data) and C26's wfDoc for the chosen encoding; manifests outside it (hostile stream) are compared "
-                    "with the model only")
+                    "AppManifest.fits (uint32 data) and C26's wfDoc for the chosen encoding (manifest_doc_wf spells it out; the canonical encoding "
+                    "always satisfies it, manifest_queries_on_canonical_file); manifests outside it (hostile stream) are compared with the "
+                    "model only")
     ck.assumptions.append("results that androguard produces by iterating a Python set of lxml elements are compared as sorted lists; "
                           "lxml findall/get and the zip reader (apkInspector) are modelled, not verified")
     ck.assumptions.append("interpretation: 'main activity' = an enabled activity or alias with a filter holding both MAIN and LAUNCHER; "
